@@ -74,7 +74,7 @@ fn dump_instance(storage: &VariableStorage, id: InstanceId, prefix: &str, depth:
 }
 
 /// `frames=<n> Prog.var=Tag:v …` for the given PROGRAM instances.
-fn dump_programs(h: &TestHarness, programs: &[&str]) -> String {
+pub fn dump_programs(h: &TestHarness, programs: &[&str]) -> String {
     let storage = h.runtime().storage();
     let mut s = format!("frames={}", storage.frames().len());
     for p in programs {
@@ -90,7 +90,7 @@ fn error_name(e: &trust_runtime::error::RuntimeError) -> String {
     s.chars().take_while(|c| c.is_alphanumeric()).collect()
 }
 
-fn run_cycle(h: &mut TestHarness) -> String {
+pub fn run_cycle(h: &mut TestHarness) -> String {
     h.runtime_mut()
         .set_execution_deadline(Some(std::time::Instant::now() + std::time::Duration::from_secs(20)));
     let r = h.cycle();
@@ -218,7 +218,7 @@ pub fn frames_program(rng: &mut Rng) -> (String, Vec<(String, String)>) {
     (src, decls)
 }
 
-fn emit_head(out: &mut Out, n: u64, tags: &str, source: &str, decls: &[(String, String)]) {
+pub fn emit_head(out: &mut Out, n: u64, tags: &str, source: &str, decls: &[(String, String)]) {
     out.line(format!("case {n}"));
     out.line(format!("tag oracle-only {tags}"));
     for (slot, tag) in decls {
